@@ -5,6 +5,7 @@ which evaluates the clauses of the property on them.  The verdict is TLC's."""
 
 from __future__ import annotations
 
+import concurrent.futures
 import itertools
 import json
 import multiprocessing
@@ -97,7 +98,7 @@ class Campaign:
 def _replay_emitted(ctx, camp, res, source, pool, mode, shuffle_inputs, sample_every, keep_lines=None):
     jobs = (
         (chunk, ctx.seed, mode, shuffle_inputs, sample_every, 40)
-        for chunk in _chunks(_emitted_lines(res), 1500)
+        for chunk in _chunks(_emitted_lines(res), 300)
     )
     n0 = camp.instances
     for out in pool.imap_unordered(tb.process_lines, jobs):
@@ -237,22 +238,19 @@ def _feature_runs(ctx, lines):
     """Concretisation features that are not part of the enumerated structure: reference attributes of
     type GRAPH / GRAPHS (no nested nodes) on a node of an otherwise ordinary instance."""
     obs = []
-    picked = 0
     rng = random.Random(ctx.seed ^ 0xFEA7)
-    for line in rng.sample(lines, len(lines)):
-        rec = json.loads(json.loads(line))
-        inst, res = rec[:4], rec[4]
-        if len(inst[0]) < 2 or res[0] == 0 or [list(o) for o in res[0]] == [list(o) for o in inst[2]]:
-            continue
-        picked += 1
+    recs = [json.loads(json.loads(line)) for line in lines]
+    acyclic = [rec for rec in recs if len(rec[0]) >= 1 and rec[4][0] != 0]
+    changed = [rec for rec in acyclic if [list(o) for o in rec[4][0]] != [list(o) for o in rec[2]]]
+    smallest = sorted(acyclic, key=lambda rec: (len(rec[0]), len(rec[1])))[:2]
+    for rec in smallest + rng.sample(changed, min(4, len(changed))):
+        inst = rec[:4]
         for feat in ("refattr", "refattrs"):
             runs = []
             for k, api in enumerate(tb.APIS_ROOT):
                 out, after, _ = tb.observe(inst, 1, api, tb.variant_of(ctx.seed, inst, k), False, feat)
                 runs.append([api, k, out, after])
             obs.append([inst, 1, runs, {"source": "feature", "feature": feat}])
-        if picked >= 6:
-            break
     return obs
 
 
@@ -271,17 +269,6 @@ def run_engine(ctx):
         "TLC, the JVM and CPython are trusted",
     ]
 
-    # 1. the step-wise action system reaches exactly SortedAt (small scope), every action taken
-    res = ctx.tlc(STEPS, _cfg("TopoSortSteps_q.cfg" if quick else "TopoSortSteps.cfg"), tag="steps",
-                  coverage=True, workers=workers, timeout=1500)
-    _require(res, "TopoSortSteps")
-    acts = {k.split("!")[1]: v[0] for k, v in res.coverage.items() if k.startswith("TopoSortSteps!")}
-    need = ["Gen", "Call", "Collect", "AddPreds", "Heapify", "Pop", "Check", "Relink", "Return"]
-    missing = [a for a in need if acts.get(a, 0) == 0]
-    if missing:
-        raise MachineryError(f"actions never taken in TopoSortSteps: {missing} (coverage {acts})")
-    ctx.extra["steps_action_coverage"] = {a: acts.get(a, 0) for a in need}
-
     camp = Campaign(ctx)
     kept = []          # some emitted lines for the hash-seed sample and the feature scenarios
     exhaustive_cfgs = [("TopoSortMC_q3.cfg", "exh<=3(canonical)", "all", False, 25)]
@@ -296,12 +283,36 @@ def run_engine(ctx):
         "exhaustive": [c[0] for c in exhaustive_cfgs], "simulation": [s[0] for s in sims],
         "MaxG": 3, "MaxDepth": 2, "MaxIn": 2,
     }
+    # quick tier: the small TLC runs overlap (4 workers each) with the enumeration; thorough: one
+    # after the other on all cores
+    side_workers = 4 if quick else workers
 
-    with multiprocessing.get_context("fork").Pool(workers) as pool:
+    def tlc_steps():
+        return ctx.tlc(STEPS, _cfg("TopoSortSteps_q.cfg" if quick else "TopoSortSteps.cfg"), tag="steps",
+                       coverage=True, workers=side_workers, timeout=1500, count=False)
+
+    def tlc_sim(cfg, total):
+        return ctx.tlc(MC, _cfg(cfg), tag="sim-" + cfg[11:-4], deadlock=False, workers=side_workers,
+                       simulate=f"num={max(1, total // side_workers)}", depth=40, seed=ctx.seed, timeout=3000,
+                       count=False)
+
+    def account(res):
+        ctx.states += res.distinct
+        ctx.transitions += res.generated
+
+    # the replay pool is forked before any thread exists
+    with multiprocessing.get_context("fork").Pool(workers) as pool, \
+            concurrent.futures.ThreadPoolExecutor(max_workers=3 if quick else 1) as tp:
+        f_steps = tp.submit(tlc_steps)
+        f_sims = [tp.submit(tlc_sim, cfg, total) for cfg, _, total in sims] if quick else None
+
+        # 1. the step-wise action system reaches exactly SortedAt (small scope), every action taken
+        if not quick:
+            res = f_steps.result()
         # 2. exhaustive enumeration by TLC, replay of every emitted instance
         for cfg, source, mode, shuffle_inputs, sample_every in exhaustive_cfgs:
-            res = ctx.tlc(MC, _cfg(cfg), tag="mc-" + cfg[11:-4], deadlock=False, workers=workers,
-                          timeout=7200, heap="12g")
+            res = ctx.tlc(MC, _cfg(cfg), tag="mc-" + cfg[11:-4], deadlock=False,
+                          workers=(workers - 4 if quick and workers > 8 else workers), timeout=7200, heap="12g")
             _require(res, cfg)
             keep = (7, kept) if cfg == "TopoSortMC_q3.cfg" else None   # every 7th emitted instance
             n = _replay_emitted(ctx, camp, res, source, pool, mode, shuffle_inputs, sample_every, keep)
@@ -310,12 +321,22 @@ def run_engine(ctx):
             os.remove(res.out_path)
         exhaustive_instances = camp.instances
 
+        res = f_steps.result()
+        _require(res, "TopoSortSteps")
+        account(res)
+        acts = {k.split("!")[1]: v[0] for k, v in res.coverage.items() if k.startswith("TopoSortSteps!")}
+        need = ["Gen", "Call", "Collect", "AddPreds", "Heapify", "Pop", "Check", "Relink", "Return"]
+        missing = [a for a in need if acts.get(a, 0) == 0]
+        if missing:
+            raise MachineryError(f"actions never taken in TopoSortSteps: {missing} (coverage {acts})")
+        ctx.extra["steps_action_coverage"] = {a: acts.get(a, 0) for a in need}
+
         # 3. random larger instances generated by TLC in simulation mode
         sim_obs_every = 1 if quick else 4
-        for cfg, source, total in sims:
-            res = ctx.tlc(MC, _cfg(cfg), tag="sim-" + cfg[11:-4], deadlock=False, workers=workers,
-                          simulate=f"num={max(1, total // workers)}", depth=40, seed=ctx.seed, timeout=1500)
+        for k, (cfg, source, total) in enumerate(sims):
+            res = f_sims[k].result() if quick else tlc_sim(cfg, total)
             _require(res, cfg)
+            account(res)
             n = _replay_emitted(ctx, camp, res, source, pool, "all", False, sim_obs_every)
             if n == 0:
                 raise MachineryError(f"{cfg}: TLC emitted no instance")
